@@ -14,6 +14,16 @@ pub fn family(name: &str, n: usize) -> String {
         "nested-parens" => format!("{}1{}", "(".repeat(n), ")".repeat(n)),
         "unclosed-parens" => format!("{}1", "(".repeat(n)),
         "misclosed-parens" => format!("{}1{}", "(".repeat(n), "}".repeat(n)),
+        // a parenthesised chain in the MIDDLE of a chain of the same family, nested n deep (each re-association
+        // pass meets a grouped operand with an accumulator pending and an operator still to come)
+        "nested-quotient-chain" => (0..n).fold("1".to_owned(), |acc, _| format!("1 * ({acc}) / 1")),
+        "nested-difference-chain" => (0..n).fold("1".to_owned(), |acc, _| format!("1 + ({acc}) - 1")),
+        "nested-application-chain" => format!("f => {}", (0..n).fold("1".to_owned(), |acc, _| format!("f 1 ({acc}) 1"))),
+        // the parenthesised chain as the LAST operand / argument, nested n deep; and a malformed innermost term
+        "nested-last-argument" => format!("f => {}", (0..n).fold("1".to_owned(), |acc, _| format!("f 1 ({acc})"))),
+        "nested-last-operand" => (0..n).fold("1".to_owned(), |acc, i| if i % 2 == 0 { format!("1 - ({acc})") } else { format!("1 / ({acc})") }),
+        "nested-argument-error" => format!("f => x => {}", (0..n).fold("if x".to_owned(), |acc, _| format!("f ({acc})"))),
+        "nested-if-condition" => (0..n).fold("true".to_owned(), |acc, _| format!("if ({acc}) then true else false")),
         "plus-chain" => vec!["1"; n].join(" + "),
         "mixed-chain" => (0..n).map(|i| ["1 *", "2 -", "3 /", "4 +"][i % 4]).collect::<Vec<_>>().join(" ") + " 5",
         "application-chain" => format!("f = x => x; f {}", vec!["1"; n].join(" ")),
@@ -51,7 +61,8 @@ pub fn family(name: &str, n: usize) -> String {
     }
 }
 
-pub const FAMILIES: [&str; 16] = ["nested-parens", "unclosed-parens", "misclosed-parens", "plus-chain", "mixed-chain", "application-chain",
+pub const FAMILIES: [&str; 23] = ["nested-parens", "unclosed-parens", "misclosed-parens", "nested-quotient-chain", "nested-difference-chain",
+    "nested-application-chain", "nested-last-argument", "nested-last-operand", "nested-argument-error", "nested-if-condition", "plus-chain", "mixed-chain", "application-chain",
     "definitions", "nested-if", "truncated-if", "lambda-chain", "arrow-chain", "negation-chain", "comparison-chain",
     "definitions-then-nested", "shared-dependencies", "nested-groups"];
 
